@@ -1334,6 +1334,25 @@ def _m_endswith(ip, st, recv, args, kwargs):
     yield st, as_value("bool", tm.SuffixOf(to_term(p), to_term(recv)))
 
 
+@method("bytes", "join")
+def _m_bjoin(ip, st, recv, args, kwargs):
+    items = concrete_items(ip, st, args[0])
+    if items is None:
+        raise Unsupported("bytes.join over a symbolic sequence")
+    if any(kind_of(x) != "bytes" for x in items):
+        yield st, Raise(mk_exc(st, "TypeError", "sequence item: expected a bytes-like object"))
+        return
+    if not is_sym(recv) and not any(is_sym(x) for x in items):
+        yield st, recv.join(items)
+        return
+    parts = []
+    for k, x in enumerate(items):
+        if k and not (not is_sym(recv) and recv == b""):
+            parts.append(to_term(recv))
+        parts.append(to_term(x))
+    yield st, as_value("bytes", tm.Concat(*parts) if parts else tm.BytesLit(b""))
+
+
 @method("bytes", "startswith")
 def _m_bstartswith(ip, st, recv, args, kwargs):
     (p,) = args
